@@ -56,6 +56,15 @@ func main() {
 		fmt.Println("ENGINE: cannot load the working tree:", err)
 		os.Exit(2)
 	}
+	for _, sc := range ld.staleAtBind {
+		msg := fmt.Sprintf("contract of %s dropped: %s", sc.Key, sc.Why)
+		run.Stale = append(run.Stale, msg)
+		for _, p := range sc.Props {
+			if p == *prop && sc.Layer != "H" {
+				run.engineErr = append(run.engineErr, msg)
+			}
+		}
+	}
 	for _, d := range ld.droppedContracts {
 		// "path:line: reason"
 		var key, layer string
@@ -91,7 +100,7 @@ func main() {
 	func() {
 		defer func() {
 			if r := recover(); r != nil {
-				if u, ok := r.(Unsupported); ok {
+				if u, ok := asUnsupported(r); ok {
 					run.engineErr = append(run.engineErr, "UNSUPPORTED "+u.Msg)
 					return
 				}
